@@ -32,4 +32,8 @@ package graphdb
 //@   site store DirectedChannel.InboundFee: assert value.BaseFee == ite(policy.InboundFee.isSome, policy.InboundFee.some.BaseFee, 0) &&
 //@        value.FeeRate == ite(policy.InboundFee.isSome, policy.InboundFee.some.FeeRate, 0)
 //@   site store DirectedChannel.OutPolicySet: assert value && channel.IsNode1 == policy.IsNode1
+//@   // ... and it holds when the update is done, whether or not a store happened (return 2 is the end of the closure)
+//@   site return * nth 2 as cached-fee-is-the-policy-fee: assert channel.IsNode1 == policy.IsNode1 ==>
+//@        channel.InboundFee.BaseFee == ite(policy.InboundFee.isSome, policy.InboundFee.some.BaseFee, 0) &&
+//@        channel.InboundFee.FeeRate == ite(policy.InboundFee.isSome, policy.InboundFee.some.FeeRate, 0)
 //@   site store DirectedChannel.InPolicy: assert value == policy && channel.IsNode1 != policy.IsNode1
